@@ -13,6 +13,7 @@ import (
 type shape struct {
 	unwind, updating, patternPredicate, varLenNamedRel, varLen, multiDelete, labelsFn, with bool
 	repeatedNodeVar, relationshipMatch, optionalAfterWith                                   bool
+	leadingUnwind, shortest, optionalMatch, withScalarAlias                                 bool
 	readingClauses                                                                          int
 }
 
@@ -22,6 +23,21 @@ func shapeOf(q *cypher.RegularQuery) shape {
 		switch t := node.(type) {
 		case *cypher.Unwind:
 			s.unwind = true
+		case *cypher.Match:
+			if t.Optional {
+				s.optionalMatch = true
+			}
+			for _, part := range t.Pattern {
+				for _, el := range part.PatternElements {
+					if el.IsRelationshipPattern() {
+						s.relationshipMatch = true // a relationship pattern of a MATCH (not of CREATE / MERGE)
+					}
+				}
+			}
+		case *cypher.ProjectionItem:
+			if _, isVar := t.Expression.(*cypher.Variable); !isVar && t.Alias != nil {
+				s.withScalarAlias = true
+			}
 		case *cypher.UpdatingClause, *cypher.Create, *cypher.Set, *cypher.Remove, *cypher.Merge:
 			s.updating = true
 		case *cypher.Delete:
@@ -44,6 +60,9 @@ func shapeOf(q *cypher.RegularQuery) shape {
 		case *cypher.PatternPredicate:
 			s.patternPredicate = true
 		case *cypher.PatternPart:
+			if t.ShortestPathPattern || t.AllShortestPathsPattern {
+				s.shortest = true
+			}
 			seen := map[string]bool{}
 			for _, el := range t.PatternElements {
 				if np, ok := el.AsNodePattern(); ok && np.Variable != nil {
@@ -51,9 +70,6 @@ func shapeOf(q *cypher.RegularQuery) shape {
 						s.repeatedNodeVar = true
 					}
 					seen[np.Variable.Symbol] = true
-				}
-				if el.IsRelationshipPattern() {
-					s.relationshipMatch = true
 				}
 			}
 		case *cypher.RelationshipPattern:
@@ -73,6 +89,18 @@ func shapeOf(q *cypher.RegularQuery) shape {
 			s.readingClauses++
 		}
 	}))
+	// is the very first clause of the query an UNWIND?
+	if q != nil && q.SingleQuery != nil {
+		var first []*cypher.ReadingClause
+		if mp := q.SingleQuery.MultiPartQuery; mp != nil && len(mp.Parts) > 0 && mp.Parts[0] != nil {
+			first = mp.Parts[0].ReadingClauses
+		} else if sp := q.SingleQuery.SinglePartQuery; sp != nil {
+			first = sp.ReadingClauses
+		}
+		if len(first) > 0 && first[0] != nil && first[0].Unwind != nil {
+			s.leadingUnwind = true
+		}
+	}
 	return s
 }
 
@@ -87,6 +115,16 @@ func classOf(issue string, s shape) string {
 		return issue + ":unwind-followed-by-updating-clause"
 	case s.patternPredicate && issue != "field-of-non-composite":
 		return issue + ":pattern-predicate-placed-outside-its-frame"
+	case s.leadingUnwind && s.varLen:
+		return issue + ":query-starts-with-unwind-before-variable-length-match"
+	case s.unwind && s.with && s.shortest:
+		return issue + ":unwind-after-WITH-before-shortest-path-match"
+	case s.unwind && s.with && s.optionalMatch && issue == "unknown-column":
+		return issue + ":optional-match-after-WITH-and-UNWIND"
+	case s.leadingUnwind && s.with && issue == "unknown-relation":
+		return issue + ":query-starts-with-unwind-followed-by-WITH"
+	case s.with && s.withScalarAlias && s.updating && s.readingClauses >= 2 && issue == "unknown-relation-qualifier":
+		return issue + ":updating-clause-after-second-match-reads-WITH-alias"
 	case s.unwind && s.varLen:
 		return issue + ":unwind-before-variable-length-match"
 	case s.labelsFn && s.with && issue == "unknown-relation-qualifier":
